@@ -40,6 +40,7 @@ recorded findings).
 import CtyModel.Lemmas.RefineBase
 import CtyModel.Lemmas.RefinePrefix
 import CtyModel.Generated.Delims
+import CtyModel.Lemmas.RefineFnsTie
 namespace CtyModel
 namespace C05
 open Refine
@@ -505,6 +506,114 @@ switch re-decides this obligation. -/
 theorem delimiter_table_is_source :
     delimiters.map (·.toNat) = Generated.safeDelims ∧ ∀ d ∈ Generated.safeDelims, d < 128 := by
   decide
+
+/-! ### the REGENERATED model: the theorems above, about the source text itself
+
+`extract/translate_rfn.go` translates `Value.Refine`, every `RefinementBuilder` method, `NewValue` and the
+methods of the four refinement structs from cty/unknown_refinement.go into Lean on every check
+(`Generated/RefineFns.lean`).  The `generated_*_eq` theorems say that what the source text computes — on the
+model's reading of a `cty.Value`, with the `Value` operations it calls taken as given (`CtyModel/RefineGo.lean`) —
+is what the hand-written model computes, up to the text of a panic (`er`); `ext` applies
+`cty.NormalizeString` / `ctystrings.SafeKnownPrefix` (parameters, `[Strings]`) to a call's argument as the source
+does.  The `*_generated` corollaries state the property clauses directly about the translated source.  A source
+edit that changes the meaning makes these proofs fail; an edit that leaves the translated fragment makes the
+extractor fail. -/
+section Regenerated
+open RefineGo RefineFnsTie
+variable [Strings]
+
+/-- `Value.Refine` as written in the source is the model's `init`, on every modelled value -/
+theorem generated_init_eq (v : Value) (h : Modelled v) : Generated.RefineFns.init v = init v := init_eq v h
+
+/-- every builder method as written in the source is the model's `step` (every builder, every argument) -/
+theorem generated_step_eq [EqOracle] (b : Builder) (c : RefineCall) :
+    er (Generated.RefineFns.step b c) = er (step b (ext c)) := step_eq b c
+
+theorem generated_run_eq [EqOracle] (b : Builder) (cs : List RefineCall) :
+    er (Generated.RefineFns.run b cs) = er (run b (cs.map ext)) := run_eq cs b
+
+/-- `NewValue` as written in the source is the model's `newValue`, on every well-formed builder -/
+theorem generated_newValue_eq [EqOracle] (b : Builder) (hw : b.wf = true) :
+    er (Generated.RefineFns.newValue b) = er (newValue b) := newValue_eq b hw
+
+theorem generated_refine_eq [EqOracle] (v : Value) (cs : List RefineCall) (h : Modelled v) :
+    er (Generated.RefineFns.refine v cs) = er (refine v (cs.map ext)) := refine_eq v cs h
+
+/-- `rawEqual` of the four refinement structs as written in the source is the model's `rfnRawEq` -/
+theorem generated_rawEqual_eq (a b : Rfn) (ha : a ≠ .unref) :
+    Generated.RefineFns.rawEqual a b = .ok (rfnRawEq a b) := rawEqual_eq a b ha
+
+/-- an accepted outcome of the translated source is the same accepted outcome of the model -/
+theorem ok_of_generated {α} {g m : Res α} (h : er g = er m) {a : α} (hg : g = .ok a) : m = .ok a := by
+  rw [hg, er_ok] at h; exact er_eq_ok.mp h.symm
+
+/-- "never changes its type", about the translated source -/
+theorem type_preserved_generated [EqOracle] (v w : Value) (cs : List RefineCall) (hm : Modelled v)
+    (h : Generated.RefineFns.refine v cs = .ok w) : w.ty = v.ty :=
+  type_preserved v w (cs.map ext) (ok_of_generated (refine_eq v cs hm) h)
+
+theorem step_keeps_receiver_generated [EqOracle] (b b' : Builder) (cs : List RefineCall)
+    (h : Generated.RefineFns.run b cs = .ok b') : b'.orig = b.orig ∧ b'.marks = b.marks :=
+  step_keeps_receiver b b' (cs.map ext) (ok_of_generated (run_eq cs b) h)
+
+/-- "never widens its range", about the translated source (exact number equality) -/
+theorem narrows_generated [ExactOracle] (b b' : Builder) (cs : List RefineCall)
+    (h : Generated.RefineFns.run b cs = .ok b') (x : Conc) (hx : γB b' x = true) : γB b x = true :=
+  narrows_partial b b' (cs.map ext) (ok_of_generated (run_eq cs b) h) x hx
+
+theorem refine_narrows_generated [ExactOracle] (v w : Value) (cs : List RefineCall) (hm : Modelled v)
+    (h : Generated.RefineFns.refine v cs = .ok w) (x : Conc) (hx : γV w x = true) : γV v x = true :=
+  refine_narrows v w (cs.map ext) (ok_of_generated (refine_eq v cs hm) h) x hx
+
+/-- "a value satisfying every constraint stated so far stays admitted": `γ (step b c) = γ b ∩ ⟦c⟧`, about
+the translated source -/
+theorem exact_generated [ExactOracle] (b b' : Builder) (c : RefineCall) (hd : b.isDyn = false)
+    (h : Generated.RefineFns.step b c = .ok b') (x : Conc) (hx : (ext c).droppedAt x = false) :
+    γB b' x = (γB b x && den (ext c) x) :=
+  exact_partial b b' (ext c) hd (ok_of_generated (step_eq b c) h) x hx
+
+theorem refine_exact_generated [ExactOracle] (v w : Value) (cs : List RefineCall) (hm : Modelled v)
+    (hk : v.unmark.isKnown = false) (hd : isDynVal v.unmark = false)
+    (hc : (cs.map ext).all (fun c => !c.dropped) = true) (h : Generated.RefineFns.refine v cs = .ok w) (x : Conc)
+    (hx : x.fits = true) : γV w x = (γV v x && (cs.map ext).all (fun c => den c x)) :=
+  refine_exact_partial v w (cs.map ext) hk hd hc (ok_of_generated (refine_eq v cs hm) h) x hx
+
+/-- "a constraint that contradicts earlier constraints is rejected", about the translated source -/
+theorem rejects_contradiction_generated [ExactOracle] (b : Builder) (c : RefineCall) (hw : b.wf = true)
+    (hl : b.wip.lenOk = true) (hr : (ext c).isRange = true) (hx : (ext c).exclusiveInfinite = false)
+    (h1 : ∃ x, x ≠ .null ∧ γB b x = true) (h2 : ∀ x, x ≠ .null → (γB b x && den (ext c) x) = false)
+    (b' : Builder) : Generated.RefineFns.step b c ≠ .ok b' := fun h =>
+  rejects_contradiction_partial b (ext c) hw hl hr hx h1 h2 b' (ok_of_generated (step_eq b c) h)
+
+/-- "the result becomes a known value only if that value admits exactly what the refinement admitted",
+about the translated `NewValue` -/
+theorem newValue_known_exact_generated [ExactOracle] (b : Builder) (w : Value) (hw : b.wf = true)
+    (hk : b.orig.isKnown = false) (hd : b.isDyn = false) (h : Generated.RefineFns.newValue b = .ok w) (x : Conc) :
+    γV w x = γB b x :=
+  newValue_known_exact b w hw hk hd (ok_of_generated (newValue_eq b hw) h) x
+
+/-- "the type-unknown dynamic value ignores refinement", about the translated source: every call leaves the
+builder of `cty.DynamicVal` as it was -/
+theorem dynamic_ignores_generated [EqOracle] (b : Builder) (c : RefineCall) (hb : b.isDyn = true) :
+    Generated.RefineFns.step b c = .ok b := by
+  have h := step_eq b c
+  rw [(dynamic_ignores Value.dynVal [] rfl).2 b (ext c) hb, er_ok] at h
+  exact er_eq_ok.mp h
+
+/-- "a constraint that contradicts a known value is rejected", about the translated source -/
+theorem known_is_assertion_generated [ExactOracle] (v w : Value) (cs : List RefineCall) (x : Conc) (hm : Modelled v)
+    (hk : v.unmark.isKnown = true) (hx : concOf v.unmark = some x) (h : Generated.RefineFns.refine v cs = .ok w) :
+    w = v.unmark.withMarks v.marks ∧ (cs.map ext).all (fun c => den c x) = true :=
+  known_is_assertion v w (cs.map ext) x hk hx (ok_of_generated (refine_eq v cs hm) h)
+
+-- the hypotheses are satisfiable: a marked, already refined unknown number is modelled, and the translated
+-- source accepts a call on it
+example : Modelled ⟨.number, .marked ["m"] (.unk (.num .u (some ⟨.fin false 1 0 64, true⟩) none))⟩ := by
+  intro h; have := congrArg Res.isOk h; revert this; decide
+example : @Generated.RefineFns.step textOracle ⟨id, id⟩ sampleList (.lenLower 3) =
+    .ok { sampleList with wip := .coll .u 3 maxInt } := by rfl
+
+end Regenerated
 
 end C05
 end CtyModel
